@@ -175,6 +175,23 @@ def transform_key_str_equals_enum(maxlen, dst, form="str_str"):
             and hash(k) == hash(ref) and (k == ref) is True and (k == ((m, dst) if sym_is_src else (dst, m))) is True
         parts[f"key_{m.name}"] = L.Implies(hit, ok)
     parts["rejects_other"] = L.Implies(L.Not(L.Or(*hits)), isinstance(exc, REJECT))
+    if k is not None and k.src is not k.dst:
+        # the registry answers the raw (string / enum) pair exactly as it answers the parsed key
+        from perception_eval.common.transform import HomogeneousMatrix, TransformDict
+
+        M = HomogeneousMatrix((1.0, 2.0, 3.0), (1.0, 0.0, 0.0, 0.0), k.src, k.dst)
+        td = TransformDict([M])
+        raw = (s, other) if sym_is_src else (other, s)
+        try:
+            item = td[raw]
+        except KeyError:
+            item = None
+        try:
+            moved = td.transform(raw, (0.5, 0.25, 0.0))
+            same_point = all(bool(L.close(a, b, 1e-9)) for a, b in zip(moved, M.transform((0.5, 0.25, 0.0))))
+        except KeyError:
+            same_point = False
+        parts["registry_answers_raw_pair"] = td.get(raw) is M and item is M and same_point and td.get(list(raw)) is M
     return Out(parts=parts, obs={"src": getattr(getattr(k, "src", None), "name", None),
                                  "dst": getattr(getattr(k, "dst", None), "name", None),
                                  "exc": type(exc).__name__ if exc else None})
